@@ -26,9 +26,12 @@ func init() {
 		c01Handoff(c)
 		c01AtomicTake(c)
 		c20Snapshot(c, "C01.8b")
+		sliceFifoShapes(c, "C01.8c") // the write buffer is a FIFO: Push appends at the tail
 		c01Kind(c)
 		c01SharedFrameReadOnly(c)
 		c01SendWiring(c, "C01.13")
+		codecCallTable(c, "C01.15")
+		c13Prepared(c) // C01.16 = C13.6: a pre-encoded frame sent over WebTransport is rendered once, as one frame, from the transport's own copy
 		lockBalance(c, "C01.14", "engine", "transports")
 		c16Encoded(c)                                                                                // C01.10: the polling batch is encoded as handed over (C16.1)
 		c03AdmittedStates(c, "C01.12", map[string]bool{"sendPacket/Push": true, "flush/Send": true}) // every accepted Send is buffered and every buffer is drained while not closed
